@@ -81,7 +81,7 @@ func (C15) Meta() core.Meta {
 		Assumptions: []string{"kernel, file system and process scheduling are real and not controlled; nothing in the oracle depends on timing (pipes are pre-filled or closed before start)", "passphrase flows (age -p, age -d of a passphrase file) run on a pseudo-terminal the simulator types into: right / wrong / empty passphrase, terminal hang-up, confirmation mismatch", "runs as root: permission-denied destinations are not generated", "a death by signal (SIGXFSZ, SIGPIPE) counts as a non-zero status", "the key age-keygen generates comes from the child process's real CSPRNG: its value is checked for consistency, never logged or compared between runs"},
 		Real:        []string{"cmd/age and cmd/age-keygen binaries built from the working tree", "Linux kernel: files, pipes, RLIMIT_FSIZE, /dev/full"},
 		Stub:        []string{"argv, environment, input files, identity/recipient files, file descriptors and limits (the plan)"},
-		FaultKinds:  []string{"fault.fsize", "fault.nodir", "fault.isdir", "fault.devfull", "fault.closedpipe", "fault.damage_header", "fault.damage_payload", "fault.damage_trunc", "fault.damage_trunc_chunk", "fault.no_matching_identity", "fault.competing_creator", "fault.passphrase_wrong", "fault.passphrase_empty", "fault.passphrase_hangup", "fault.passphrase_mismatch", "fault.passphrase_notmine", "fault.fifo_reader_leaves"},
+		FaultKinds:  []string{"fault.fsize", "fault.nodir", "fault.isdir", "fault.devfull", "fault.closedpipe", "fault.damage_header", "fault.damage_payload", "fault.damage_trunc", "fault.damage_trunc_chunk", "fault.no_matching_identity", "fault.competing_creator", "fault.passphrase_wrong", "fault.passphrase_empty", "fault.passphrase_hangup", "fault.passphrase_mismatch", "fault.passphrase_notmine", "fault.fifo_reader_leaves", "fault.in_isdir", "fault.in_stdin_unreadable"},
 		Probes:      []string{"probe.exit0_complete", "probe.exit_nonzero", "probe.killed_by_signal", "probe.same_file_refused", "probe.pre_existing_output", "probe.keygen_mode_checked", "probe.empty_plaintext", "probe.multi_chunk", "probe.fsize_limit_below_output", "probe.fsize_limit_at_or_above_output", "probe.header_refusal_output_untouched", "probe.partial_output_is_prefix", "probe.stdin_input", "probe.several_identity_files", "probe.dash_names", "probe.pre_existing_symlink", "probe.race_competitor_refused", "probe.race_competitor_created", "probe.passphrase_on_pseudo_terminal", "probe.output_not_a_regular_file"},
 	}
 }
@@ -176,6 +176,16 @@ func (C15) Generate(r *core.RNG, tier string, idx uint64) interface{} {
 		p.PreLink = r.Chance(1, 3)
 		p.PreEmpty = r.Chance(1, 2)
 		p.OutVia = "file"
+	}
+	if p.Fault.Kind == "" && p.SameAs == "" && (p.Op == "encrypt" || p.Op == "decrypt") && r.Chance(1, 12) {
+		// the INPUT cannot be read: it names a directory, or standard input is not open for reading
+		p.Fault = OutFault{Kind: []string{"in_isdir", "in_stdin_unreadable"}[r.Intn(2)]}
+		p.Damage = ""
+		if p.IdKey < 0 {
+			p.IdKey = 0
+		}
+		p.InVia = map[string]string{"in_isdir": "file", "in_stdin_unreadable": "stdin"}[p.Fault.Kind]
+		p.Dash = false
 	}
 	if p.Fault.Kind == "" && p.SameAs == "" && !p.PreExist && (p.Op == "encrypt" || p.Op == "decrypt") && r.Chance(1, 6) {
 		// -o names something that is not a regular file: a FIFO somebody reads, /dev/stdout (a pipe), /dev/null
@@ -322,6 +332,9 @@ type procResult struct {
 	timeout bool
 }
 
+// runProcStdinFile, when set, becomes the child's standard input as it is (for descriptors that cannot be read).
+var runProcStdinFile *os.File
+
 // runProcTimeout is how long a process may run (a worker process executes one case at a time).
 var runProcTimeout = 60 * time.Second
 
@@ -344,6 +357,9 @@ func runProc(dir string, umask int, stdin []byte, stdout *os.File, closeRead *os
 	cmd.Env = []string{"PATH=/usr/bin:/bin", "HOME=" + dir, "TZ=UTC", "LANG=C"}
 	if stdin != nil {
 		cmd.Stdin = bytes.NewReader(stdin)
+	}
+	if runProcStdinFile != nil {
+		cmd.Stdin = runProcStdinFile
 	}
 	var outBuf, errBuf bytes.Buffer
 	if stdout != nil {
@@ -620,6 +636,24 @@ func (e C15) one(p *C15Plan, fault OutFault, c *core.Ctx, ageBin, kgBin string, 
 		} else {
 			stdin = P
 		}
+	}
+
+	// ----- input that cannot be read -----
+	switch fault.Kind {
+	case "in_isdir":
+		inputPath = filepath.Join(dir, "d") // a directory: opening works, reading fails
+		stdin = nil
+		validInput = false
+		headerRefusal = p.Op == "decrypt"
+	case "in_stdin_unreadable":
+		inputPath = ""
+		stdin = nil
+		if f, err := os.OpenFile(filepath.Join(dir, "sink"), os.O_WRONLY|os.O_CREATE, 0o600); err == nil {
+			runProcStdinFile = f // standard input is a descriptor opened for writing only
+			defer func() { f.Close(); runProcStdinFile = nil }()
+		}
+		validInput = false
+		headerRefusal = p.Op == "decrypt"
 	}
 
 	// ----- destination -----
@@ -949,6 +983,12 @@ func (e C15) one(p *C15Plan, fault OutFault, c *core.Ctx, ageBin, kgBin string, 
 		}
 	}
 
+	if fault.Kind == "in_isdir" || fault.Kind == "in_stdin_unreadable" {
+		if res.exit == 0 {
+			return core.Fail("C15.unreadable_input_exit0", "the input cannot be read (%s) and the exit status is 0: %s; the output holds %d bytes; stderr %q", fault.Kind, desc, len(got), clipS(res.stderr))
+		}
+		c.Stats.Inc("probe.exit_nonzero")
+	}
 	if res.exit == 0 {
 		ok, why := complete()
 		if !ok {
